@@ -521,8 +521,8 @@ def badwell_programs(dev):
     """Well ids that do not exist in the labware (out of range or malformed) through every record emitting operation (C08)."""
     progs = []
     P, T, Sx = 0, 1, 2
-    bad_plate = [(3, 0), (0, 4), (25, 0), (30, 1), "A1", "A001x", "AA01", "a01", "01A", "", "A-1", "Ä01", "A 01"]
-    bad_trough = [(4, 0), (0, 3), "A1", "E01", "column_01"]
+    bad_plate = [(3, 0), (0, 4), (25, 0), (30, 1), "A1", "A001x", "AA01", "a01", "01A", "", "A-1", "Ä01", "A 01", "A00", "C0", "B000"]
+    bad_trough = [(4, 0), (0, 3), "A1", "E01", "column_01", "A00", "D0"]
     k = 0
     for w in bad_plate:
         h = _hdr(f"badwell/plate-{k}", dev, base_labware(), flags={"comp": False, "norm": False})
